@@ -1,5 +1,6 @@
 import KinModel.Drv.SchemaJson
 import KinModel.Schema.Spec
+import KinModel.Schema.Events
 open Lean
 namespace KinModel.Drv.C01
 open KinModel.Drv KinModel.Schema
@@ -10,7 +11,7 @@ partial def kwBranches (j : Json) (depth : Nat) : List String :=
     let here := o.toList.filterMap (fun (k, _) =>
       if ["type", "nullable", "enum", "format", "minimum", "maximum", "exclusiveMinimum", "exclusiveMaximum", "multipleOf",
           "minLength", "maxLength", "pattern", "minItems", "maxItems", "uniqueItems", "items", "properties", "required",
-          "additionalProperties", "minProperties", "maxProperties", "allOf", "anyOf", "oneOf", "not", "discriminator", "$ref", "readOnly", "writeOnly"].contains k
+          "additionalProperties", "minProperties", "maxProperties", "allOf", "anyOf", "oneOf", "not", "discriminator", "$ref", "readOnly", "writeOnly", "default"].contains k
       then some (if depth == 0 then s!"kw.{k}" else s!"kw.nested.{k}") else none)
     let deeper := o.toList.flatMap (fun (k, v) =>
       match v with
@@ -24,19 +25,37 @@ partial def kwBranches (j : Json) (depth : Nat) : List String :=
 def valKind : J → String
   | .null => "v.null" | .bool _ => "v.bool" | .num _ => "v.num" | .str _ => "v.str" | .arr _ => "v.arr" | .obj _ => "v.obj"
 
-/-- request: {schema, value, regex:[[p,s,b]], formats:[[f,s,b]]} -/
+def isAscii (s : String) : Bool := s.toList.all (fun (c : Char) => decide (c.toNat < 128))
+partial def strLeaves : J → List String
+  | .str s => [s]
+  | .arr xs => xs.flatMap strLeaves
+  | .obj kvs => kvs.flatMap (fun kx => kx.1 :: strLeaves kx.2)
+  | _ => []
+
+/-- request: {schema, value, regex:[[p,s,b]], formats:[[f,s,b]], pre:[{compiler, regex}]}. `pre` is the HISTORY of the
+process before the observed call: earlier validations of the same schema and value under other regex compilers; each
+is evaluated by the model with its own compiler's table (the verdict of a call is a function of the call's own env). -/
 def handle (j : Json) : Json :=
   let sj := getD j "schema" (Json.mkObj [])
   let s := caseSchema j
   let v := toJ (getD j "value" Json.null)
   let env := envOf j
   let m := visit env s v
+  -- the fail-fast entry points (VisitJSON(FailFast()), IsMatching*): `(validate .failfast env s v).isOk`, which IS `visit env s v`
+  -- by the kernel-checked `verdict_same_in_all_modes` (Props/C12.lean); the driver does not compute the event tree twice
+  let ff := m
   let sp := satB env s v
+  let pre := (getArr j "pre").map (fun st => let e := { env with regex := regexOf st }; (visit e s v, satB e s v))
   let br := (kwBranches sj 0).eraseDups ++ [valKind v] ++ (if m then ["accept"] else ["reject"]) ++
     (if s.shortcut then ["shortcut"] else []) ++
     (if env.asreq then ["ctx.asreq"] else []) ++ (if env.asrep then ["ctx.asrep"] else []) ++
-    (if env.roOff || env.woOff then ["ctx.switchoff"] else [])
-  jobj [("model", jobj [("ok", Json.bool m)]), ("spec", jobj [("sat", Json.bool sp)]),
+    (if env.roOff || env.woOff then ["ctx.switchoff"] else []) ++
+    (if env.patOff then ["opt.patOff"] else []) ++
+    (if pre.isEmpty then [] else ["history.compiler"]) ++
+    (if (strLeaves v).any (fun x => !isAscii x) then ["v.nonascii"] else []) ++
+    (if (getStr sj "pattern") != "" && !isAscii (getStr sj "pattern") then ["kw.pattern.nonascii"] else [])
+  jobj [("model", jobj [("ok", Json.bool m), ("ff", Json.bool ff), ("pre", Json.arr (pre.map (fun r => Json.bool r.1)).toArray)]),
+        ("spec", jobj [("sat", Json.bool sp), ("pre", Json.arr (pre.map (fun r => Json.bool r.2)).toArray)]),
         ("excl", Json.arr #[]), ("branches", jstrs br)]
 
 end KinModel.Drv.C01
